@@ -165,6 +165,156 @@ theorem G_docBody (pd : Bool) (d : Node) : G pd [] (docBody d) = ([], mergeKeys 
   simp only [docBody, G_append, G_cons, G_nil, G_node pd d]
   simp [handleAlias, isKeyTop, b2n, mkOf, wf, cstep]
 
+/-! ## the alias/anchor ratio, judged at `DocumentEnd` under the per-document policy -/
+
+def isDocEnd : Raw → Bool
+  | .docEnd => true
+  | _ => false
+
+mutual
+theorem flatten_noDocEnd (t : Node) : (flatten t).all (fun ev => !isDocEnd ev) = true := by
+  match t with
+  | .scalar v st a tag => rfl
+  | .alias id => rfl
+  | .seq a tag items =>
+    simp only [flatten, List.all_cons, List.all_append, flattenL_noDocEnd items]; rfl
+  | .map a tag entries =>
+    simp only [flatten, List.all_cons, List.all_append, flattenE_noDocEnd entries]; rfl
+theorem flattenL_noDocEnd (ts : List Node) : (flattenL ts).all (fun ev => !isDocEnd ev) = true := by
+  match ts with
+  | [] => rfl
+  | t :: ts => simp only [flattenL, List.all_append, flatten_noDocEnd t, flattenL_noDocEnd ts]; rfl
+theorem flattenE_noDocEnd (es : List (Node × Node)) : (flattenE es).all (fun ev => !isDocEnd ev) = true := by
+  match es with
+  | [] => rfl
+  | (k, v) :: es =>
+    simp only [flattenE, List.all_append, flatten_noDocEnd k, flatten_noDocEnd v, flattenE_noDocEnd es]; rfl
+end
+
+/-- the only `DocumentEnd` of `xs ++ [DocumentEnd]` is the last event -/
+theorem split_at_docEnd {xs pre post : List Raw} (hx : xs.all (fun ev => !isDocEnd ev) = true)
+    (h : xs ++ [.docEnd] = pre ++ .docEnd :: post) : pre = xs ∧ post = [] := by
+  induction xs generalizing pre with
+  | nil =>
+    cases pre with
+    | nil => simp at h; exact ⟨rfl, h⟩
+    | cons p ps =>
+      simp only [List.nil_append, List.cons_append, List.cons.injEq] at h
+      have := congrArg List.length h.2
+      simp at this
+  | cons x xs ih =>
+    simp only [List.all_cons, Bool.and_eq_true] at hx
+    cases pre with
+    | nil =>
+      simp only [List.cons_append, List.nil_append, List.cons.injEq] at h
+      rw [h.1] at hx
+      simp [isDocEnd] at hx
+    | cons p ps =>
+      simp only [List.cons_append, List.cons.injEq] at h
+      obtain ⟨rfl, h2⟩ := h
+      obtain ⟨rfl, rfl⟩ := ih hx.2 h2
+      exact ⟨rfl, rfl⟩
+
+/-- the ratio heuristic of the model is the mathematical one of the Spec (the saturating product cannot change the
+comparison when the alias count is a `usize`) -/
+theorem ratioBreach_eq (e : Enf) (ha : e.report.aliases ≤ USIZE_MAX) :
+    e.ratioBreach =
+      if ratioOk e.lim { e.report with anchors := e.defined.length } = true then none
+      else some (.ratio e.report.aliases e.defined.length) := by
+  have hdec : decide (e.report.aliases > satMul e.lim.multiplier e.defined.length) =
+      decide (e.report.aliases > e.lim.multiplier * e.defined.length) :=
+    decide_eq_decide.mpr (gt_satMul e.lim.multiplier e.defined.length ha)
+  have hr : ratioOk e.lim { e.report with anchors := e.defined.length } =
+      !(e.lim.enforceRatio && decide (e.report.aliases ≥ e.lim.minAliases) &&
+        (e.defined.length == 0 || decide (e.report.aliases > e.lim.multiplier * e.defined.length))) := rfl
+  simp only [Enf.ratioBreach, hdec]
+  by_cases hc : (e.lim.enforceRatio && decide (e.report.aliases ≥ e.lim.minAliases) &&
+    (e.defined.length == 0 || decide (e.report.aliases > e.lim.multiplier * e.defined.length))) = true
+  · have hf : ratioOk e.lim { e.report with anchors := e.defined.length } = false := by rw [hr, hc]; rfl
+    rw [if_pos hc, hf]; rfl
+  · have hc' := Bool.eq_false_iff.mpr hc
+    have hf : ratioOk e.lim { e.report with anchors := e.defined.length } = true := by rw [hr, hc']; rfl
+    rw [if_neg hc, hf]; rfl
+
+/-- `ratioOk` only reads the alias and anchor counts -/
+theorem ratioOk_congr (lim : Limits) (r r' : Report) (h1 : r.aliases = r'.aliases) (h2 : r.anchors = r'.anchors) :
+    ratioOk lim r = ratioOk lim r' := by
+  simp only [ratioOk, h1, h2]
+
+/-- `DocumentEnd` only moves the event counter: the ratio heuristic sees the same numbers before and after -/
+theorem ratioBreach_next_docEnd (e : Enf) : (next e .docEnd).ratioBreach = e.ratioBreach := by
+  simp [next, Enf.ratioBreach, isDocStart, isStreamFrame, isAliasEv, anchorOf, b2n]
+
+theorem within_next_docEnd {e : Enf} (hw : Within e) (hev : e.report.events + 1 ≤ e.lim.maxEvents) :
+    Within (next e .docEnd) := by
+  simp only [Within] at hw
+  simp [Within, next, isDocStart, isStreamFrame, isAliasEv, isNodeEv, isStart, anchorOf, mkOf, b2n]
+  omega
+
+/-- the state at the `DocumentEnd` of a document read from the fresh per-document state (all checks aside): its
+report is the independent count of the document's own events -/
+theorem docFinal_report (lim : Limits) (d : Node) (hlen : (flattenDoc d).length < 2 ^ 64) :
+    (nextAll (docStartState lim 0) (docBody d)).finalize.1 = usageDoc d := by
+  have hp := docBody_plain d
+  have hl : (docBody d).length < 2 ^ 64 := by
+    rw [flattenDoc_eq] at hlen; simp only [List.length_cons] at hlen; omega
+  obtain ⟨-, hmd⟩ := doc_depth lim _ hp hl
+  have hmk : mkAll false [] (docBody d) = mergeKeys d := congrArg (·.2.1) (G_docBody false d)
+  rw [finalize_fst]
+  simp only [usageDoc]
+  rw [doc_events lim _ hp, doc_aliases lim _ hp, doc_defined lim _ hp, doc_documents, doc_nodes lim _ hp, hmd,
+    doc_tsb lim _ hp, doc_mergeKeys lim _ hp, hmk,
+    nEvents_doc, nAliases_doc, nAnchors_doc, nNodes_doc, maxDepth_doc, scalarBytes_doc]
+
+theorem within_of_docFinal (lim : Limits) (d : Node) (hlen : (flattenDoc d).length < 2 ^ 64)
+    (hw : Within (nextAll (docStartState lim 0) (docBody d))) : within lim (usageDoc d) = true := by
+  rw [← docFinal_report lim d hlen, finalize_fst]
+  simp only [Within, doc_lim] at hw
+  rw [within_iff]
+  dsimp only
+  omega
+
+theorem docFinal_aliases_le (lim : Limits) (d : Node) (hlen : (flattenDoc d).length < 2 ^ 64) :
+    (nextAll (docStartState lim 0) (docBody d)).report.aliases ≤ USIZE_MAX := by
+  rw [doc_aliases lim _ (docBody_plain d)]
+  have h1 := nAliases_le_length (docBody d)
+  have hU : USIZE_MAX = 2 ^ 64 - 1 := rfl
+  rw [flattenDoc_eq] at hlen; simp only [List.length_cons] at hlen; omega
+
+/-- the ratio verdict on the state at the `DocumentEnd` of a document, in Spec terms -/
+theorem docFinal_ratio (lim : Limits) (d : Node) (hlen : (flattenDoc d).length < 2 ^ 64) :
+    (nextAll (docStartState lim 0) (docBody d)).ratioBreach =
+      if ratioOk lim (usageDoc d) = true then none
+      else some (.ratio (usageDoc d).aliases (usageDoc d).anchors) := by
+  have hF := docFinal_report lim d hlen
+  rw [finalize_fst] at hF
+  rw [ratioBreach_eq _ (docFinal_aliases_le lim d hlen), doc_lim, hF]
+  have h1 : (nextAll (docStartState lim 0) (docBody d)).report.aliases = (usageDoc d).aliases := by
+    rw [← hF]
+  have h2 : (nextAll (docStartState lim 0) (docBody d)).defined.length = (usageDoc d).anchors := by
+    rw [← hF]
+  rw [h1, h2]
+
+theorem docBody_eq (d : Node) : docBody d = flatten d ++ [.docEnd] := rfl
+
+/-- a `DocumentEnd` accepted under the per-document policy: the ratio check was silent (on the state before as on
+the state after: the event only moves the event counter) -/
+theorem observe_docEnd_ok_pd {e e' : Enf} (hpd : e.perDocument = true) (h : e.observe .docEnd = .ok e') :
+    e.ratioBreach = none ∧ e'.ratioBreach = none := by
+  have hn : e' = next e .docEnd := (observe_ok h).1
+  rw [observe_plain e rfl rfl] at h
+  simp only [Enf.observeCounted, hpd, if_true] at h
+  split at h
+  · cases h
+  · split at h
+    · cases h
+    · rename_i hr
+      refine ⟨hr, ?_⟩
+      rw [hn]
+      have : (next e .docEnd).ratioBreach = e.ratioBreach := by
+        simp [next, Enf.ratioBreach, isDocStart, isStreamFrame, isAliasEv, anchorOf, b2n]
+      rw [this]; exact hr
+
 /-! ## the recovery path of the pump (`skip_to_next_document`) -/
 
 /-- `skipLoop` does not touch the budget before the `DocumentStart` it stops at; there it hands the budget to
